@@ -847,7 +847,7 @@ def run(ctx):
     if fc_sem and os.path.exists(vlib.MODEL):
         import subprocess
         lines = [f"{cid}\t{core}" for cid, _, _, _, core in fc_sem if core]
-        p_ = subprocess.run(["bash", "-c", f"ulimit -s unlimited; exec {vlib.MODEL} sem"], input="\n".join(lines) + "\n",
+        p_ = vlib.srun(["bash", "-c", f"ulimit -s unlimited; exec {vlib.MODEL} sem"], input="\n".join(lines) + "\n",
                             stdout=subprocess.PIPE, stderr=subprocess.PIPE, text=True, timeout=3000)
         semres = {}
         for l_ in p_.stdout.split("\n"):
